@@ -50,13 +50,16 @@ def catalogue():
 
 
 def seeded():
-    rows = ["| change | breaks | needs, in order to manifest | reported by (quick tier) | silent |", "|---|---|---|---|---|"]
+    rows = ["| change | breaks | needs, in order to manifest | reported by (quick tier) | first result, and what was strengthened |", "|---|---|---|---|---|"]
     for f in sorted(glob.glob(os.path.join(V, "seeded", "*", "meta.json"))):
         m = json.load(open(f))
         rep = [f"{p} `{', '.join(r['oracles'][:2])}`" for p, r in sorted(m["checks"].items()) if r["result"] == "reported"]
         silent = [p for p, r in sorted(m["checks"].items()) if r["result"] == "silent"]
         other = [f"{p}: {r['result']}" for p, r in sorted(m["checks"].items()) if r["result"] not in ("reported", "silent")]
-        rows.append(f"| `{m['name']}` | {m['breaks_property']} | {m['needs_to_manifest']} | {'; '.join(rep + other) or '**none**'} | {' '.join(silent) or '-'} |")
+        hist = "reported as first built"
+        if m.get("strengthened_by"):
+            hist = f"{m.get('first_result', 'missed')} -> strengthened: {m['strengthened_by']}"
+        rows.append(f"| `{m['name']}` | {m['breaks_property']} | {m['needs_to_manifest']} | {'; '.join(rep + other) or '**none**'} | {hist} |")
     return "\n".join(rows)
 
 
